@@ -7,6 +7,7 @@ META = dict(
   outside=['RecursiveCheckOwners, CheckSplitOwner, Path1InsidePath2, BuildTree64 over symbolic geometry'],
 )
 OBLIGATIONS = [
+  O('C04.f-checksplitowner-innermost', 'eng_units.cpp', 'harness_checksplitowner_innermost', replace={'Clipper2Lib::ClipperBase::CheckBounds(': 'stub_checkbounds_live', 'Clipper2Lib::Path1InsidePath2(Clipper2Lib::OutPt': 'stub_p1inp2_tab'}, unwind=6, timeout=300, bound='chain of three nested split records r0 > r1 > r2, all alive; every containment verdict consistent with the nesting', desc='CheckSplitOwner installs the innermost record containing the searching ring (none if none contains it)'),
 ] + [O('C04.e-tree-vs-paths-flags%d' % f, 'eng_whole.cpp', 'harness_tree_vs_paths', defs=['FLAGS=%d' % f], unwind=14, timeout=1500, object_bits=16, tiers='t', bound='square with a triangular hole (Difference); ReverseSolution=%d PreserveCollinear=%d' % (f & 1, (f >> 1) & 1), desc='tree execution yields the same two rings as paths execution; hole is a child of the outer, IsHole and orientation alternate (negated by ReverseSolution)') for f in range(4)] + [  O('C04.c-setowner-acyclic', 'eng_units.cpp', 'harness_setowner', unwind=8, bound='all owner forests over 4 records x all pts/null patterns x all (a,b)', desc='after SetOwner(a,b): a.owner == b and the owner relation is still acyclic'),
   O('C04.d-polypath-level', 'eng_units.cpp', 'harness_polypath_level', unwind=6, bound='concrete 3-level tree', desc='Level counts ancestors; IsHole <=> even non-zero level'),
 ]
